@@ -472,6 +472,14 @@ func (s *State) diffIOSACLs(al, bl []*cmd, diff []edit.Range) {
 		if lowAct == highAct {
 			return lowAct, id
 		}
+		// Remark lines belong to block of preceding rule.
+		// Check if insert position is between rule and its remark lines.
+		if pos > 0 && pos < len(al) && idx2Block[pos-1] == idx2Block[pos] {
+			if lowAct != "" {
+				return lowAct, idx2Block[pos]
+			}
+			return highAct, idx2Block[pos]
+		}
 		return "", 0
 	}
 	for _, r := range diff {
